@@ -1,11 +1,15 @@
-import OW.Kernels.LumpedConstituent
-import OW.Kernels.Muskingum
-import OW.Kernels.Coeff
+import OW.Kernels.Groups.Constituent
+import OW.Kernels.Groups.FlowRouting
+import OW.Kernels.Groups.Conversion
+import OW.Kernels.Groups.RR
+import OW.Kernels.Groups.Storage
+import OW.Kernels.Groups.Climate
 /- All kernel models, by catalogue name. -/
 namespace OW.Kernels
 
 def all {α} [Num α] : List (KModel α) :=
-  [ LumpedConstituent.model, Muskingum.model, Coeff.model ]
+  Groups.Constituent.models ++ Groups.FlowRouting.models ++ Groups.Conversion.models ++
+  Groups.RR.models ++ Groups.Storage.models ++ Groups.Climate.models
 
 def find {α} [Num α] (name : String) : Option (KModel α) :=
   all.find? (·.name == name)
